@@ -328,6 +328,22 @@ Proof. exact ref_cell_contains. Qed.
 Print Assumptions reference_cell_contains_point.
 
 (* ------------------------------------------------------------------ *)
+(* T15 (Resampling with linear interpolation is exact for affine functions).  l lists, per axis,
+   (source nodes, target nodes); if every target node lies in the hull of the source nodes, then
+   resampling the source-sampled affine function onto the target mesh IS the function sampled on
+   the target grid (all dimensions, shapes, non-uniform nodes). *)
+Theorem resampling_exact_on_affine : forall (l : list (list R * list R)) (a0 : R) (al : list R),
+  Forall (fun t : list R * list R =>
+            Asc (fst t) /\ (2 <= length (fst t))%nat /\
+            Forall (fun x => nth 0 (fst t) 0 <= x <= nth (length (fst t) - 1) (fst t) 0) (snd t)) l ->
+  let cvs := map fst l in let mesh := map snd l in
+  let f := fun p : list R => a0 + lincomb al p in
+  peraxis_mesh (map (fun _ => SLinear) l) cvs (vget (map (@length R) cvs) (collocate f cvs)) mesh
+  = collocate f mesh.
+Proof. exact resample_affine. Qed.
+Print Assumptions resampling_exact_on_affine.
+
+(* ------------------------------------------------------------------ *)
 (* The whole call, its recorded defects, and the provable restrictions.
 
    [interp_call var kind schemes cvs dtype values input outarg] (C15/Call.v) is the public
@@ -388,6 +404,13 @@ Example hypotheses_satisfiable :
   Asc [0; 1; 3] /\ good_axis SLinear [0; 1; 3] /\ good_axis SNearest [0; 1; 3] /\
   hull_ok (SLinear, [0; 1; 3], 2).
 Proof. exact hypotheses_example. Qed.
+Example reference_hypotheses_satisfiable :
+  Forall2 (fun t j => Asc (a_c t) /\
+                      match a_s t with
+                      | SNearest => closest (a_c t) (a_x t) j
+                      | SLinear => (2 <= length (a_c t))%nat
+                      end) [(SLinear, [0; 1; 3], 2); (SNearest, [0; 1; 3], 2)] [0%nat; 2%nat].
+Proof. exact reference_example. Qed.
 Local Close Scope R_scope.
 Local Open Scope Q_scope.
 Example model_runs_at_Q :
